@@ -122,6 +122,9 @@ def _build():
     _add('nohdr[alias|count]', Q(items=[alias(fa(1), 'v')], distinct='count'), None, quick=True)
     _add('nohdr[alias,a2|count]', Q(items=[fa(2), alias(fa(1), 'v', 'AS')], distinct='count'), None)
     _add('nohdr[star+alias]', Q(items=[STAR, alias(LEN1, 'l')]), None, quick=True)
+    _add('nohdr[alias+star]', Q(items=[alias(fa(1), 'x'), STAR]), None, quick=True)
+    _add('nohdr[alias+astar+expr]', Q(items=[alias(LEN1, 'l', 'AS'), fa(2), ASTAR]), None, quick=True)
+    _add('nohdrj[alias+bstar]', Q(items=[alias(fa(1), 'x'), BSTAR], join=jj), None, None, ['ks', 'ks'], ['ks', 'ks'], quick=True, krange=2)
     _add('nohdr[update]', Q(update=[('a1', 0, 'a2', lambda e: e.a(2))]), None)
     _add('nohdr[except]', Q(excpt=[0], excpt_text='a1'), None)
     _add('nohdrj[alias]', Q(items=[alias(fb(2), 'bb'), fa(1)], join=jj), None, None, ['ks', 'ks'], ['ks', 'ks'], krange=2)
@@ -170,9 +173,10 @@ def rel_render(q):
 def obligations(tier, seed):
     obs = []
     quick = tier == 'quick'
+    rot = set(qh.rotating([n for n in CASES if not SPEC[n]['quick']], seed, 6)) if quick else set()
     for name in CASES:
         s = SPEC[name]
-        if quick and not s['quick']:
+        if quick and not s['quick'] and name not in rot:
             continue
         obs.append(qh.query_obl('C07', name, CASES[name], s['a'], s['b'], slen=1, timeout=150 if quick else 900, ha_spec=s['ha'], hb_spec=s['hb'], **s['kw']))
     for name in (['hdr[a1,a2|count]', 'hdr[a2,a1,NR,expr-as,5|]'] if quick else ['hdr[a1,a2|count]', 'hdr[a2,a1,NR,expr-as,5|]', 'hdr[star|count]', 'hdr[except a2]', 'hdr[update]', 'hdr[star,NR|]']):
